@@ -33,7 +33,10 @@ class Program(object):
     def under(self, tid):
         t = self.types[tid]
         while t['k'] == 'named':
-            t = self.types[t['under']]
+            u = t['under']
+            if self.types[u] is t:
+                return {'k': 'iface'}    # 'any' (alias of interface{})
+            t = self.types[u]
         return t
 
     def find(self, suffix):
